@@ -27,10 +27,11 @@ const (
 	Syn         // syntactically invalid
 	Sem         // parses, semantically invalid (device without edits)
 	Empty       // empty file
+	Dangling    // symbolic link whose target does not exist
 	NKinds
 )
 
-var KindNames = []string{"absent", "X", "XY", "Y", "V2", "SYN", "SEM", "EMPTY"}
+var KindNames = []string{"absent", "X", "XY", "Y", "V2", "SYN", "SEM", "EMPTY", "DANGLING"}
 
 func (k Kind) String() string { return KindNames[k] }
 
@@ -155,6 +156,13 @@ func WriteSlot(root, dir, name string, k Kind) error {
 	}
 	if err := os.MkdirAll(filepath.Join(root, dir), 0o755); err != nil {
 		return err
+	}
+	if fi, err := os.Lstat(p); err == nil && fi.Mode()&os.ModeSymlink != 0 {
+		_ = os.Remove(p)
+	}
+	if k == Dangling {
+		_ = os.Remove(p)
+		return os.Symlink(filepath.Join(root, "no-such-target"), p)
 	}
 	return os.WriteFile(p, Content(k, name, dir+"/"+name), 0o644)
 }
